@@ -316,3 +316,446 @@ func headerNameConsts(w *World) []string {
 	}
 	return sortedKeys(set)
 }
+
+// ---------- shared rule: closures created in a loop do not capture a variable shared by the iterations ----------
+
+type loopCapture struct {
+	Fn   *ssa.Function
+	MC   *ssa.MakeClosure
+	Name string
+}
+
+// onCycle reports whether block a can reach block b and b can reach a (same loop nest), a != b allowed equal.
+func sameCycle(a, b *ssa.BasicBlock) bool {
+	reach := func(from, to *ssa.BasicBlock) bool {
+		seen := map[*ssa.BasicBlock]bool{}
+		work := append([]*ssa.BasicBlock{}, from.Succs...)
+		for len(work) > 0 {
+			x := work[len(work)-1]
+			work = work[:len(work)-1]
+			if x == to {
+				return true
+			}
+			if seen[x] {
+				continue
+			}
+			seen[x] = true
+			work = append(work, x.Succs...)
+		}
+		return false
+	}
+	return reach(a, b) && reach(b, a)
+}
+
+// escapesIteration: the closure value outlives the statement that creates it: stored, sent, started as a goroutine,
+// deferred, put into a composite, returned, or handed to a function of the package (library callees that take a
+// function value run it before returning: sort.Slice, strings.Map, ...).
+func (w *World) escapesIteration(mc *ssa.MakeClosure) bool {
+	for _, r := range *mc.Referrers() {
+		switch x := r.(type) {
+		case *ssa.Store, *ssa.Send, *ssa.MakeInterface, *ssa.Return, *ssa.Phi, *ssa.Go, *ssa.Defer, *ssa.ChangeType:
+			return true
+		case *ssa.Call:
+			if x.Call.Value == ssa.Value(mc) {
+				continue // called on the spot
+			}
+			callee := x.Common().StaticCallee()
+			if callee == nil || w.isMain(callee) {
+				return true
+			}
+		}
+	}
+	return false
+}
+
+// loopCaptures lists the closures created on a CFG cycle that escape the iteration and capture by reference a
+// variable allocated outside that cycle and assigned on it; also returns the number of closures inspected.
+func loopCaptures(w *World) ([]loopCapture, int) {
+	var out []loopCapture
+	n := 0
+	for _, fn := range w.All {
+		eachInstr(fn, func(in ssa.Instruction) {
+			mc, ok := in.(*ssa.MakeClosure)
+			if !ok || !sameCycle(mc.Block(), mc.Block()) {
+				return
+			}
+			n++
+			if !w.escapesIteration(mc) {
+				return
+			}
+			for bi, bv := range mc.Bindings {
+				al, ok := bv.(*ssa.Alloc)
+				if !ok || sameCycle(al.Block(), mc.Block()) {
+					continue
+				}
+				for _, r := range *al.Referrers() {
+					if st, ok := r.(*ssa.Store); ok && st.Addr == ssa.Value(al) && sameCycle(st.Block(), mc.Block()) {
+						name := "?"
+						if cl, ok := mc.Fn.(*ssa.Function); ok && bi < len(cl.FreeVars) {
+							name = cl.FreeVars[bi].Name()
+						}
+						out = append(out, loopCapture{fn, mc, name})
+						break
+					}
+				}
+			}
+		})
+	}
+	return out, n
+}
+
+// ruleLoopCaptureReaching: no escaping closure created in a loop, from whose body one of the named functions is
+// reachable, captures a variable shared by the iterations.
+func ruleLoopCaptureReaching(c *Ctx, rule string, what string, targets ...string) {
+	w := c.w
+	caps, n := loopCaptures(w)
+	tset := map[*ssa.Function]bool{}
+	for _, t := range targets {
+		if f := w.Fn(t); f != nil {
+			tset[f] = true
+		}
+	}
+	for _, lc := range caps {
+		cl, ok := lc.MC.Fn.(*ssa.Function)
+		if !ok {
+			continue
+		}
+		hit := false
+		for f := range w.reachableFrom([]*ssa.Function{cl}, false) {
+			if tset[f] {
+				hit = true
+			}
+		}
+		if hit {
+			c.bad(rule, fmt.Sprintf("%s/loop-capture/%s", w.fname(lc.Fn), lc.Name), w.ipos(lc.MC), "a closure created inside a loop captures variable "+lc.Name+", which is declared outside the loop and assigned in it: when the closure runs later it sees the value of a later iteration ("+what+")")
+		}
+	}
+	c.ok(rule, "package/loop-closures", "-", fmt.Sprintf("%d closures created inside loops inspected", n))
+}
+
+// ---------- shared helper: who may write into the backing array of a list field ----------
+
+// readOnlyLib: library callees that only read a slice handed to them.
+func readOnlyLib(name string) bool {
+	for _, p := range []string{"fmt.", "go.uber.org/zap.", "strings.Join", "strings.Contains", "bytes.Equal", "bytes.Index", "bytes.NewBuffer", "bytes.NewReader", "reflect.DeepEqual", "builtin:len", "builtin:cap"} {
+		if strings.HasPrefix(name, p) {
+			return true
+		}
+	}
+	return false
+}
+
+// backingWrites lists the instructions of fn (and, through parameters, of package functions it hands the slice to,
+// depth 3) that may write into the backing array of a slice obtained from a load of field ref: an element store, copy
+// into it, append to a shortened view of it, or passing it to a library function that is not known to be read-only
+// (sort.Slice, sort.Sort, rand.Shuffle, ...).
+func (w *World) backingWrites(fn *ssa.Function, ref string) []ssa.Instruction {
+	var out []ssa.Instruction
+	var roots []ssa.Value
+	eachInstr(fn, func(in ssa.Instruction) {
+		if u, ok := in.(*ssa.UnOp); ok && u.Op == token.MUL {
+			if fa, ok := u.X.(*ssa.FieldAddr); ok && fieldRef(fa) == ref {
+				roots = append(roots, u)
+			}
+		}
+	})
+	for _, r := range roots {
+		out = append(out, w.sliceWrites(r, false, 0, map[ssa.Value]bool{})...)
+	}
+	return out
+}
+
+// sliceWrites follows the uses of slice value v (shortened: v is a proper prefix/suffix view of the original).
+func (w *World) sliceWrites(v ssa.Value, shortened bool, depth int, seen map[ssa.Value]bool) []ssa.Instruction {
+	if seen[v] || depth > 3 {
+		return nil
+	}
+	seen[v] = true
+	var out []ssa.Instruction
+	refs := v.Referrers()
+	if refs == nil {
+		return nil
+	}
+	for _, r := range *refs {
+		switch x := r.(type) {
+		case *ssa.DebugRef:
+		case *ssa.IndexAddr:
+			if x.X != v {
+				continue
+			}
+			for _, rr := range *x.Referrers() {
+				if st, ok := rr.(*ssa.Store); ok && st.Addr == ssa.Value(x) {
+					out = append(out, st)
+				}
+			}
+		case *ssa.Slice:
+			if x.X == v {
+				out = append(out, w.sliceWrites(x, shortened || x.High != nil, depth, seen)...)
+			}
+		case *ssa.Phi:
+			out = append(out, w.sliceWrites(x, shortened, depth, seen)...)
+		case *ssa.ChangeType:
+			out = append(out, w.sliceWrites(x, shortened, depth, seen)...)
+		case *ssa.MakeInterface:
+			out = append(out, w.sliceWrites(x, shortened, depth, seen)...)
+		case *ssa.Store:
+			// kept in a local cell: follow its loads
+			if x.Val != v {
+				continue
+			}
+			if al, ok := x.Addr.(*ssa.Alloc); ok {
+				for _, rr := range *al.Referrers() {
+					if u, ok := rr.(*ssa.UnOp); ok && u.Op == token.MUL {
+						out = append(out, w.sliceWrites(u, shortened, depth, seen)...)
+					}
+					if mc, ok := rr.(*ssa.MakeClosure); ok {
+						// captured: the closure body may write through it
+						if cl, ok := mc.Fn.(*ssa.Function); ok {
+							for bi, bv := range mc.Bindings {
+								if bv == ssa.Value(al) && bi < len(cl.FreeVars) {
+									for _, fr := range *cl.FreeVars[bi].Referrers() {
+										if u, ok := fr.(*ssa.UnOp); ok && u.Op == token.MUL {
+											out = append(out, w.sliceWrites(u, shortened, depth+1, seen)...)
+										}
+									}
+								}
+							}
+						}
+					}
+				}
+			}
+		case ssa.CallInstruction:
+			com := x.Common()
+			if b, ok := com.Value.(*ssa.Builtin); ok {
+				switch b.Name() {
+				case "copy":
+					if len(com.Args) > 0 && com.Args[0] == v {
+						out = append(out, x)
+					}
+				case "append":
+					if len(com.Args) > 0 && com.Args[0] == v && shortened {
+						out = append(out, x)
+					}
+				}
+				continue
+			}
+			name := w.calleeName(x)
+			callee := com.StaticCallee()
+			if callee != nil && w.isMain(callee) && callee.Blocks != nil {
+				for i, a := range com.Args {
+					if a == v && i < len(callee.Params) {
+						out = append(out, w.sliceWrites(callee.Params[i], shortened, depth+1, seen)...)
+					}
+				}
+				continue
+			}
+			if !readOnlyLib(name) {
+				out = append(out, x)
+			}
+		}
+	}
+	return out
+}
+
+// freshSocket: v is the result of a socket-creating library call made here, or of a package function whose every
+// non-nil result is such a fresh socket that is not also kept anywhere else.
+func (w *World) freshSocket(v ssa.Value, depth int) (bool, string) {
+	v = strip(v)
+	if isNilConst(v) {
+		return true, ""
+	}
+	if depth > 3 {
+		return false, "too deep"
+	}
+	if p, ok := v.(*ssa.Phi); ok {
+		for _, e := range p.Edges {
+			if ok, why := w.freshSocket(e, depth); !ok {
+				return false, why
+			}
+		}
+		return true, ""
+	}
+	call, idx := callOfResult(v)
+	if call == nil {
+		return false, "it is " + w.termKey(v) + ", not a connection created here"
+	}
+	name := w.calleeName(call)
+	if strings.HasPrefix(name, "net.Dial") || strings.HasPrefix(name, "net.Listen") || strings.HasPrefix(name, "(*net.Dialer).Dial") || strings.HasPrefix(name, "(net.Dialer).Dial") {
+		// not kept anywhere else: the only uses of the result are this flow (checked by the caller through stores)
+		return true, ""
+	}
+	callee := call.Common().StaticCallee()
+	if callee == nil || !w.isMain(callee) || callee.Blocks == nil {
+		return false, "it comes from " + name
+	}
+	for _, r := range returnsUnder(callee, nil) {
+		if idx >= len(r.Results) {
+			return false, "result shape"
+		}
+		rv := r.Results[idx]
+		if ok, why := w.freshSocket(rv, depth+1); !ok {
+			return false, "through " + w.fname(callee) + ": " + why
+		}
+		// the returned socket must not also be stored into a container or another object inside the callee
+		for _, lf := range phiLeaves(rv) {
+			if isNilConst(lf) {
+				continue
+			}
+			if refs := lf.Referrers(); refs != nil {
+				for _, rr := range *refs {
+					switch y := rr.(type) {
+					case *ssa.Store:
+						if y.Val == lf {
+							if _, isAl := y.Addr.(*ssa.Alloc); !isAl {
+								return false, "through " + w.fname(callee) + ": the connection is also kept at " + w.ipos(y)
+							}
+						}
+					case *ssa.MapUpdate:
+						return false, "through " + w.fname(callee) + ": the connection is also kept in a table at " + w.ipos(y)
+					}
+				}
+			}
+		}
+	}
+	return true, ""
+}
+
+// ---------- shared rule: key/value list accessors find the first entry with the given key ----------
+
+// kvAccessors: lookup/update helpers over the KeyValue lists of the decoded header types.
+var kvAccessors = []string{
+	"(*ViaParam).GetParam", "(*ViaParam).HasParam", "(*ViaParam).SetParam",
+	"(*FromSpec).GetParam", "(*FromSpec).SetTag", "(*To).GetParam", "(*To).AddParam",
+	"(*SIPURI).GetParameter", "(*SIPURI).SetParameter", "(*SIPURI).GetHeader",
+}
+
+// ruleKVFind: each named accessor either delegates to another accessor on its own receiver, or walks the receiver's
+// KeyValue list and takes its early exit at the first entry whose Key equals the wanted name and on no other condition
+// (so a parameter that is present is found whatever its value, and the first of several wins).
+func ruleKVFind(c *Ctx, rule string, names ...string) {
+	w := c.w
+	set := map[string]bool{}
+	for _, n := range kvAccessors {
+		set[n] = true
+	}
+	for _, name := range names {
+		fn := w.Fn(name)
+		if fn == nil {
+			c.undecided(rule, name+"/kv-find", "-", "accessor "+name+" not found")
+			continue
+		}
+		c.Fns[name] = true
+		var loops []*rangeLoop
+		for _, rl := range rangeLoops(fn) {
+			if rl.Over == nil || rl.IsMap {
+				continue
+			}
+			if ref, base := loadedField(rl.Over); ref != "" && isParam(fn, base, 0) {
+				if sl, ok := rl.Over.Type().Underlying().(*types.Slice); ok && strings.HasSuffix(sl.Elem().String(), "KeyValue") {
+					loops = append(loops, rl)
+				}
+			}
+		}
+		if len(loops) == 0 {
+			deleg := ""
+			for _, cs := range w.callsIn(fn) {
+				if set[cs.Name] && isParam(fn, callArg(cs.In, -1), 0) {
+					deleg = cs.Name
+				}
+			}
+			if deleg != "" {
+				c.ok(rule, name+"/kv-find", w.pos(fn.Pos()), "delegates to "+deleg+" on its own receiver")
+			} else {
+				c.bad(rule, name+"/kv-find", w.pos(fn.Pos()), name+" neither walks its receiver's parameter list nor delegates to an accessor that does")
+			}
+			continue
+		}
+		good, nExit := true, 0
+		why := ""
+		for _, rl := range loops {
+			bound := w.atom(rl.If.Cond).Key
+			isKey := func(v ssa.Value) bool {
+				v = strip(v)
+				if f, ok := v.(*ssa.Field); ok {
+					return rl.isElem(f.X) && fieldName(f.X.Type(), f.Field) == "Key"
+				}
+				if a, ok := isDeref(v); ok {
+					if fa, ok := a.(*ssa.FieldAddr); ok && fieldName(fa.X.Type(), fa.Field) == "Key" {
+						if ia, ok := fa.X.(*ssa.IndexAddr); ok {
+							return ia.X == rl.Over && ia.Index == rl.Idx
+						}
+						// the loop variable: a local cell holding a copy of the current element
+						if al, ok := fa.X.(*ssa.Alloc); ok {
+							n, okAll := 0, true
+							for _, r := range *al.Referrers() {
+								if st, ok := r.(*ssa.Store); ok && st.Addr == ssa.Value(al) {
+									n++
+									if !rl.isElem(st.Val) {
+										okAll = false
+									}
+								}
+							}
+							return n == 1 && okAll
+						}
+					}
+				}
+				return false
+			}
+			wanted := func(v ssa.Value) bool {
+				v = strip(v)
+				if _, ok := constString(v); ok {
+					return true
+				}
+				for i := 1; i < len(fn.Params); i++ {
+					if v == ssa.Value(fn.Params[i]) {
+						return true
+					}
+				}
+				return false
+			}
+			atoms := map[string]Atom{}
+			for _, a := range w.atomsOf(fn) {
+				atoms[a.Key] = a
+			}
+			for _, b := range fn.Blocks {
+				if !rl.Body.Dominates(b) || len(b.Instrs) == 0 {
+					continue
+				}
+				ret, ok := b.Instrs[len(b.Instrs)-1].(*ssa.Return)
+				if !ok {
+					continue
+				}
+				nExit++
+				ctrl := w.controlAtoms(fn, ret)
+				nKey := 0
+				for k, val := range ctrl {
+					if k == bound {
+						continue
+					}
+					a := atoms[k]
+					if a.Kind == "eq" && val && ((isKey(a.X) && wanted(a.Y)) || (isKey(a.Y) && wanted(a.X))) {
+						nKey++
+						continue
+					}
+					if a.Kind == "eqstr" && val && isKey(a.X) {
+						nKey++
+						continue
+					}
+					good = false
+					why = "the match additionally depends on " + k
+				}
+				if nKey != 1 {
+					good = false
+					if why == "" {
+						why = "the early exit is not conditioned on entry.Key == name"
+					}
+				}
+			}
+		}
+		if nExit == 0 {
+			good = false
+			why = "no early exit at the matching entry"
+		}
+		c.check(good, rule, name+"/kv-find", w.pos(fn.Pos()), "takes the first entry whose Key equals the wanted name, whatever its value", name+" does not simply take the first entry whose key matches ("+why+"): a parameter that is present (e.g. a valueless ;rport or ;lr) is reported absent, or a later duplicate wins")
+	}
+}
